@@ -240,7 +240,17 @@ class Prop(PropBase):
             y = pb.contrib.stft(z, nperseg=rng.choice([2, 4]))
             return [y, pb.contrib.istft(type(y).like(y, np.array(y.data)), nperseg=2)]
         if op == "ufunc":
-            return [z * 2, np.negative(z), z + z]
+            res = [z * 2, np.negative(z), z + z]
+            # results whose natural dtype is not the class's (magnitudes, truth values, exponents): either refused or brought into
+            # the class's dtype set — whatever comes back is a signal of the class and has to satisfy the class's contract
+            for f in (lambda: np.abs(z), lambda: np.isfinite(z), lambda: z > 0, lambda: np.frexp(z)[1], lambda: z * 1j, lambda: z == z):
+                try:
+                    r = f()
+                    if isinstance(r, pb.Signal):
+                        res.append(r)
+                except Exception:       # noqa  (a refusal is fine)
+                    pass
+            return res
         if op == "snippet" and len(z) > 4:
             return [pb.snippet(z, rng.choice([1, 1.5]), 2)]
         if op == "like":
